@@ -32,6 +32,7 @@ func init() {
 
 func runC18(c *eng.Ctx) {
 	p := c.P
+	watchResyncReachesTheListeners(c)
 	reportedStateIsTheLiveState(c)
 	everyEventIsQueued(c)
 	online := constOf0(c, "models", "OnlineShard")
